@@ -778,6 +778,38 @@ fn rand_f64_txt(rng: &mut StdRng) -> String {
     format!("bits:{:016x}", v.to_bits())
 }
 
+/// Directed, seed-independent cases run at the start of every `record`: route tables {P, P+x, P+y} whose radix trie
+/// has a value-less internal node between the siblings (radix_trie branches on NIBBLES: 'a' 0x61, 'b' 0x62, 'c' 0x63
+/// share the high nibble), with names that end on / pass through / diverge inside that node.  The right target is the
+/// closest ancestor ROUTE (P), not "whatever the closest trie node holds" (seeded change raw_ancestor_lookup).
+fn fixed_programs() -> Vec<Value> {
+    let cases: Vec<(Vec<(&str, &str)>, Vec<&str>)> = vec![
+        (vec![("all", ""), ("all", "a"), ("all", "b")], vec!["c", "`", "o", "a", "b", "", "A", "ca"]),
+        (vec![("all", "a"), ("all", "ab"), ("all", "ac")], vec!["ad", "a`", "a", "aa", "ab", "abz", "a.", "b"]),
+        (vec![("all", "a"), ("all", "a.b"), ("all", "a.c")], vec!["a.a", "a.d", "a.", "a", "a.bX", "a.cX", "a.`", "a/x"]),
+        (vec![("all", ""), ("all", "a.b"), ("all", "a.c")], vec!["a.a", "a.", "a", "x", "a.b", "a.`z"]),
+        (vec![("c", "a"), ("c", "ab"), ("c", "ac"), ("g", "ab"), ("g", "ac")], vec!["ad", "aa", "ab", "a"]),
+        (vec![("g", "ab"), ("g", "ac"), ("g", "a")], vec!["ad", "aa", "ac.", "a"]),
+        (vec![("h", "m.x"), ("h", "m.y"), ("h", "m"), ("all", "")], vec!["m.z", "m.", "m.x.1", "m", "n", "m.p"]),
+        (vec![("all", "ab"), ("all", "ac"), ("all", "a"), ("all", "abc"), ("all", "abd")], vec!["abe", "ab`", "ad", "abc", "ab", "abf.x"]),
+        (vec![("all", "\u{e9}"), ("all", "\u{e9}a"), ("all", "\u{e9}b")], vec!["\u{e9}c", "\u{e9}", "\u{e9}a", "\u{e8}", "\u{e9}\u{e9}"]),
+        (vec![("all", ""), ("all", "\u{e9}"), ("all", "\u{e8}")], vec!["\u{ea}", "\u{e0}", "\u{c9}", "\u{e9}x", "z"]),
+        (vec![("all", "a"), ("all", "a."), ("all", "aA")], vec!["a0", "a!", "aB", "a.", "aA", "ab"]),
+        (vec![("c", "tokio"), ("c", "tokio.rt"), ("c", "tokio.rx"), ("all", "tok")], vec!["tokio.rz", "tokio.r", "tokio.", "tokio.rt.x", "tokyo", "tok"]),
+    ];
+    cases.into_iter().map(|(routes, names)| {
+        let rs: Vec<Value> = routes.iter().enumerate().map(|(i, (m, p))| rt(m, p, pr(i as i64 + 1))).collect();
+        let mut ops = vec![];
+        for n in names {
+            for k in ["c", "g", "h"] {
+                ops.push(json!({"o": "describe", "kind": k, "name": cps(n), "unit": "none", "desc": []}));
+                ops.push(json!({"o": "register", "kind": k, "name": cps(n), "labels": [], "lvl": "info", "tgt": [], "mod": false}));
+            }
+        }
+        json!({"cfg": {"t": "router", "def": pr(0), "routes": rs}, "ops": ops})
+    }).collect()
+}
+
 fn random_program(rng: &mut StdRng) -> Value {
     let mut g = Gen { rng, next_probe: 0, strings: vec![] };
     let depth = g.rng.random_range(1..=3);
@@ -999,6 +1031,9 @@ fn main() {
     match mode.as_str() {
         "record" => {
             let runs: usize = args.num("runs", 200);
+            for p in fixed_programs() {
+                run_program(&p, &mut w, &mut st);
+            }
             for i in 0..runs {
                 let p = if i % 4 == 3 { random_history(&mut rng) } else { random_program(&mut rng) };
                 run_program(&p, &mut w, &mut st);
